@@ -174,12 +174,12 @@ Print Assumptions C17_lazycontour_alias_refuted.
    and in-place modifications of the returned arrays: every read returns the
    stored data. *)
 Theorem C17_object_cache_history_fresh :
-  forall (data : list Z) (ops : list oop),
-    map oobs (snd (orun data true o_init ops)) = map (ospec data) ops.
+  forall (data : list Z) (reuse : bool) (ops : list oop),
+    map oobs (snd (orun data true reuse o_init ops)) = map (ospec data) ops.
 Proof. exact obj_history_fresh. Qed.
 Print Assumptions C17_object_cache_history_fresh.
 
 Theorem C17_object_cache_alias_refuted :
-  exists data ops, map oobs (snd (orun data false o_init ops)) <> map (ospec data) ops.
+  exists data ops, map oobs (snd (orun data false true o_init ops)) <> map (ospec data) ops.
 Proof. exact obj_alias_refuted. Qed.
 Print Assumptions C17_object_cache_alias_refuted.
